@@ -2,5 +2,5 @@ SPECIFICATION USpec
 CONSTANTS
   MaxLen = 6
   Rests = {"host", "userinfo"}
-INVARIANTS UEmit UTypeOK KindsDisjoint ConstantsValid CaseInsensitive ValidateIffScheme ExactLength
+INVARIANTS UEmit UTypeOK KindsDisjoint ConstantsValid CaseInsensitive ValidateIffScheme AsciiIsStricter ExactLength
 CHECK_DEADLOCK FALSE
